@@ -194,6 +194,8 @@ def gen_raise(rng):
         if case["what"] == "var" and case["to_scan"] is not None:
             case["to_scan"] = [k for k in case["to_scan"] if k != missing] or None
         case["raise"] = "keyerr"
+        if rng.random() < 0.3:
+            _add_mc_table(rng, case)
         return case
     case = gen_euler(rng)
     vnames = [k for k, _ in case["content"]["vars"]]
@@ -201,6 +203,8 @@ def gen_raise(rng):
         case["vars"] = [[k, rng.choice(["1", "2"])] for k in rng.sample(vnames, rng.randint(0, len(vnames)))]
         case["vars"].insert(rng.randint(0, len(case["vars"])), ["nosuchvar", "1"])
         case["raise"] = "unknown"
+        if rng.random() < 0.3:
+            _add_mc_table(rng, case)
         return case
     j = rng.randrange(len(case["to_scan"]))
     where = rng.choice(["up", "lo", "norm"] if case["normalized"] else ["up", "lo"])
@@ -211,6 +215,17 @@ def gen_raise(rng):
     except (fexpr.Inexact, ZeroDivisionError):
         case["cfg"]["raise"] = []
     return case
+
+
+def _add_mc_table(rng, case):
+    """the same raising call through the Monte-Carlo wrapper: it raises in a pool process, on a copy"""
+    c = case["content"]
+    plain_p = [k for k, v in c["pars"] if "v" in v]
+    cols = rng.sample(plain_p, rng.randint(1, min(2, len(plain_p))))
+    n = rng.randint(1, 3)
+    case["mc"] = {"cols": cols, "rows": [[i, [rng.choice(["1", "2", "1/2", "3/2"]) for _ in cols]] for i in range(n)]}
+    if case["what"] == "par" and case["to_scan"] is None:
+        case["to_scan"] = plain_p
 
 
 def _run_keys(case):
@@ -306,6 +321,8 @@ def run_real_mc(case, mode):
         out["after"] = H9._state(m)
         return out
     except Exception as e:  # noqa: BLE001
+        if case.get("raise"):
+            return {"err": [type(e).__name__], "before": before, "after": _state_after_raise(m)}
         return {"err": [type(e).__name__]}
 
 
@@ -500,6 +517,8 @@ def run_oracle_mc(case):
 def run_oracle(case):
     if case.get("mc"):
         try:
+            if case.get("raise"):
+                return oracle_raise(case)  # the exception of the first sample escapes; the caller's model is untouched
             return run_oracle_mc(case)
         except fexpr.Inexact:
             return {"skip": "inexact"}
@@ -548,7 +567,10 @@ def model_requests_mc(case):
 def canon_model_mc(answers, S):
     """driver answers (one per sample) -> observation shaped like S"""
     if any("err" in a for a in answers):
-        return {"err": [next(a for a in answers if "err" in a)["err"][0]]}
+        bad = next(a for a in answers if "err" in a)
+        if "err" in S and "before" in S and "caller" in bad:
+            return canon_model(bad, S, S["before"])
+        return {"err": [bad["err"][0]]}
     samples, after = [], S["before"]
     for (label, tmpl), a in zip(S["samples"], answers):
         cm = canon_model(a, tmpl, S["before"])
@@ -652,14 +674,14 @@ def classify(case, mode, R, S):
 
 def shape(case):
     c = case["content"]
+    if case.get("raise"):
+        at = "-".join(str(x) for x in case.get("raise_at", []))
+        return (f"raise-{'mc-' if case.get('mc') else ''}{case['raise']}{'-' + at if at else ''}-{case['what']}-"
+                f"{'norm' if case['normalized'] else 'raw'}-{'y' if case['vars'] else 'init'}")
     if case.get("mc"):
         vs = {k for k, _ in c["vars"]}
         return (f"mc-{case['stratum']}-{case['what']}-samples{len(case['mc']['rows'])}-"
                 f"{'samplevar' if any(col in vs for col in case['mc']['cols']) else 'samplepar'}-"
-                f"{'norm' if case['normalized'] else 'raw'}-{'y' if case['vars'] else 'init'}")
-    if case.get("raise"):
-        at = "-".join(str(x) for x in case.get("raise_at", []))
-        return (f"raise-{case['raise']}{'-' + at if at else ''}-{case['what']}-"
                 f"{'norm' if case['normalized'] else 'raw'}-{'y' if case['vars'] else 'init'}")
     return (f"{case['stratum']}{'-iavar' if case.get('iavar') else ''}-{case['what']}-v{len(c['vars'])}p{len(c['pars'])}r{len(c['rxns'])}"
             f"-{'norm' if case['normalized'] else 'raw'}-{'y' if case['vars'] else 'init'}-d{case['d']}")
@@ -711,7 +733,7 @@ def evaluate(ctx, jobs):
         if not ctx.driver_ok or case["stratum"] == "chain":
             continue
         if case.get("mc"):
-            if "samples" in S:
+            if "samples" in S or (case.get("raise") and "err" in S and "before" in S):
                 rq = model_requests_mc(case)
                 for mi in range(len(modes)):
                     where.append((ci, mi, len(reqs), len(rq)))
